@@ -4,7 +4,8 @@
 # builds, existing suite passes, demo fails with the change and passes without.
 # On success stores it as /verif/seeded/Cxx-n/.
 ID=$1; N=$2
-WT=/tmp/mut/$ID; OUT=/tmp/mut/$ID-out
+MUT=${MUT:-/tmp/mut}; SUF=${SUF:-}
+WT=$MUT/$ID; OUT=$MUT/$ID-out
 export GOFLAGS=-mod=mod GOPROXY=off GOSUMDB=off GOTOOLCHAIN=local
 [ -f $OUT/patch$N.diff ] || { echo "$ID-$N: no patch"; exit 2; }
 cd $WT || exit 2
@@ -12,10 +13,10 @@ git checkout -q -- . ; git clean -fdq
 DEMO=$(python3 -c "import json;print(json.load(open('$OUT/meta$N.json'))['demo_cmd'])")
 git apply $OUT/patch$N.diff || { echo "$ID-$N: patch does not apply in worktree"; exit 2; }
 BUILD=ok; go build ./... >/dev/null 2>&1 || BUILD=fail
-SUITE=pass; timeout 900 go test -vet=off -count=1 ./agent/banner/... ./agent/metrics/... ./agent/sessions/... ./agent/utils/... ./agent/websockets/... ./utils/... >/tmp/mut/$ID-suite$N.log 2>&1 || SUITE=fail
-WITH=pass; (cd $OUT && timeout 900 bash -c "$DEMO") >/tmp/mut/$ID-demo$N-with.log 2>&1 || WITH=fail
+SUITE=pass; timeout 900 go test -vet=off -count=1 ./agent/banner/... ./agent/metrics/... ./agent/sessions/... ./agent/utils/... ./agent/websockets/... ./utils/... >$MUT/$ID-suite$N.log 2>&1 || SUITE=fail
+WITH=pass; (cd $OUT && timeout 900 bash -c "$DEMO") >$MUT/$ID-demo$N-with.log 2>&1 || WITH=fail
 git apply -R $OUT/patch$N.diff
-WITHOUT=pass; (cd $OUT && timeout 900 bash -c "$DEMO") >/tmp/mut/$ID-demo$N-without.log 2>&1 || WITHOUT=fail
+WITHOUT=pass; (cd $OUT && timeout 900 bash -c "$DEMO") >$MUT/$ID-demo$N-without.log 2>&1 || WITHOUT=fail
 git checkout -q -- . ; git clean -fdq
 APPLIES=yes; STORE=$OUT/patch$N.diff
 if ! git -C /repo apply --check $OUT/patch$N.diff 2>/dev/null; then
@@ -24,7 +25,7 @@ fi
 git -C $WT checkout -q -- . ; git -C $WT clean -fdq
 echo "$ID-$N: build=$BUILD suite=$SUITE demo_with_change=$WITH demo_without=$WITHOUT applies_to_repo_head=$APPLIES"
 if [ $BUILD = ok ] && [ $SUITE = pass ] && [ $WITH = fail ] && [ $WITHOUT = pass ] && [ $APPLIES != no ]; then
-  D=/verif/seeded/$ID-$N; mkdir -p $D
+  D=/verif/seeded/$ID-$N$SUF; mkdir -p $D
   cp $STORE $D/patch.diff; [ $APPLIES = rebased ] && cp $OUT/patch$N.diff $D/patch.original-base.diff
   for f in $OUT/demo$N*; do cp -r $f $D/; done
   python3 - <<PY
